@@ -239,3 +239,33 @@ def run_meta_shipped(task):
                                    "reference": (sum(s0.values()) if kind == "enum" else s0)})
     res["wall"] = time.time() - t0
     return res
+
+
+def replay_meta(task):
+    """Witness: model, cfg, rewrite name, rewritten model (recorded, so the rewrite itself is not regenerated)."""
+    w = task["witness"]
+    if "shipped" in w:
+        return {"fails": [{"kind": "not_replayable", "detail": "shipped-model witnesses are deterministic: re-run ./check C13"}]}
+    model, cfg, m2 = w["model"], w["cfg"], w["rewritten"]
+    name = w["rewrite"]
+    base = _enum(model, cfg)
+    out = _enum(m2, _cfg_for(name, cfg, m2))
+    fails = []
+    if base.error or out.error:
+        return {"fails": [{"kind": "run_failed", "detail": "%s / %s" % (base.error, out.error)}]}
+    s0 = collections.Counter(base.solutions)
+    nv = len(model["idx"])
+    if name == "permute_variables":
+        return {"fails": [], "note": "projection of a variable permutation is not recorded; compare counts only",
+                "counts": [sum(s0.values()), len(out.solutions)]} if sum(s0.values()) == len(out.solutions) else {
+            "fails": [{"kind": "solution_count_changes_under_permute_variables", "detail": "%d vs %d" % (
+                sum(s0.values()), len(out.solutions))}]}
+    if name == "translate":
+        t = m2["doms"][0][0] - model["doms"][0][0]
+        s2 = collections.Counter(tuple(x - t for x in s) for s in out.solutions)
+    else:
+        s2 = collections.Counter(tuple(s[:nv]) for s in out.solutions)
+    if s2 != s0:
+        fails.append({"kind": "solution_set_changes_under_" + name, "detail": "%d vs %d solutions" % (
+            sum(s0.values()), sum(s2.values()))})
+    return {"fails": fails}
